@@ -652,3 +652,82 @@ def stream_model(repo) -> StreamModel:
         _STREAM_CACHE.clear()
         _STREAM_CACHE[k] = StreamModel(repo)
     return _STREAM_CACHE[k]
+
+
+def loop_terms(fn, u, roles=None):
+    """Canonical terms of a `foreach` update (an effect applied in a nest of loops): (chain, key, value, guard, args, target), the loop variables bound
+    to positional markers ('lvar', depth, position).  A level that ranges over a comprehension / a snapshot of one is flattened:
+        for t in [f(x) for x in S if g(x)]: eff(t)      is      for x in S: if g(x): eff(f(x))
+    (also when the target unpacks the elements: the names are the positions of f(x))."""
+    from ..terms import Canon, Scope, walk_term
+    m = fn.module
+    bound = dict(roles or {})
+    chain = []
+    extra_guard = []
+    flattened = set()
+
+    def rep(t, a, b):
+        if t == a:
+            return b
+        if isinstance(t, tuple):
+            return tuple(rep(x, a, b) for x in t)
+        return t
+    for depth, (names, it, shape) in enumerate(u.get('chain', [])):
+        it_t = Canon(m, Scope(None), inline=False, bound=dict(bound)).t(it)
+        L = ('lvar', depth, 0)
+        while True:
+            while it_t[0] == 'call' and it_t[1] in (('name', 'list'), ('name', 'tuple')) and len(it_t[2]) == 1 and not it_t[3]:
+                it_t = it_t[2][0]      # a snapshot of the iterable visits the same elements in the same order
+            if it_t[0] in ('genexp', 'listcomp') and len(it_t[2]) == 1:
+                break
+            break
+        elem = L
+        HOLD = ('lvar!', depth)
+        level_guards = []
+        cv = ('cvar', 0, 0)
+        while it_t[0] in ('genexp', 'listcomp') and len(it_t[2]) == 1:      # (the iterable of the only generator is evaluated outside the comprehension)
+            elt, (src, ifs) = it_t[1], it_t[2][0]
+            new = rep(elt, cv, HOLD)          # an element of it_t written over the element of src
+            elem = rep(elem, HOLD, new) if depth in flattened else new
+            level_guards = [rep(g, HOLD, new) for g in level_guards] + [rep(g, cv, HOLD) for g in ifs]
+            flattened.add(depth)
+            it_t = src
+            while it_t[0] == 'call' and it_t[1] in (('name', 'list'), ('name', 'tuple')) and len(it_t[2]) == 1 and not it_t[3]:
+                it_t = it_t[2][0]
+        extra_guard += level_guards
+        if isinstance(shape, ast.Name):
+            bound[shape.id] = elem
+        else:
+            for j, x in enumerate(shape.elts if isinstance(shape, (ast.Tuple, ast.List)) else []):
+                if isinstance(x, ast.Name):
+                    if elem == L:
+                        bound[x.id] = ('lvar', depth, j)
+                    elif elem[0] == 'tuple' and len(elem) - 1 == len(shape.elts):
+                        bound[x.id] = elem[1 + j]
+                    else:
+                        bound[x.id] = ('sub', elem, ('num', j))
+        chain.append(it_t)
+    T = lambda e: Canon(m, Scope(None), inline=False, bound=dict(bound)).t(e) if e is not None else None
+    key, val, guard, args, tgt = T(u.get('key')), T(u.get('value')), T(u.get('guard')), [T(a) for a in u.get('args', [])], T(u['target'])
+    for g in extra_guard:
+        guard = g if guard is None else ('and', tuple(sorted([guard, g], key=repr)))
+    # the element of a flattened level: read by position (x[0], x[1] = positions of an unpacked target) when it is only read that way
+    parts = [key, val, guard, tuple(args), tgt, tuple(chain)]
+    for depth in sorted(flattened):
+        HOLD = ('lvar!', depth)
+        HOLE = ('lvar?',)
+
+        def pos(t):
+            if isinstance(t, tuple) and len(t) == 3 and t[0] == 'sub' and t[1] == HOLD and isinstance(t[2], tuple) and t[2][0] == 'num' and isinstance(t[2][1], int):
+                return ('lvar', depth, t[2][1])
+            if t == HOLD:
+                return HOLE
+            if isinstance(t, tuple):
+                return tuple(pos(x) for x in t)
+            return t
+        cand = [pos(x) if x is not None else None for x in parts]
+        if any(HOLE in list(walk_term(c)) for c in cand if c is not None):
+            cand = [rep(x, HOLD, ('lvar', depth, 0)) if x is not None else None for x in parts]
+        parts = cand
+    key, val, guard, args, tgt, chain = parts[0], parts[1], parts[2], list(parts[3]), parts[4], list(parts[5])
+    return chain, key, val, guard, args, tgt
